@@ -625,11 +625,15 @@ func jsonForm(b []byte) (string, string, bool) {
 			kind = s
 		}
 	}
-	var txt string
+	// the raw string token of the text member, as encoding/json wrote it (compared with the model's
+	// quote); an omitted member (omitempty) reads as the empty string token
+	txt := `""`
 	if x, ok := m["text"]; ok {
-		if json.Unmarshal(x, &txt) != nil {
+		var s string
+		if json.Unmarshal(x, &s) != nil {
 			return "", "", false
 		}
+		txt = string(x)
 	}
 	return kind, txt, true
 }
